@@ -15,6 +15,7 @@ import (
 type netRow struct {
 	Name     string `json:"name"`
 	Hrp      string `json:"hrp"`
+	RegHrp   string `json:"reghrp"`
 	HrpCodes []int  `json:"hrpcodes"`
 	Pkh      int    `json:"pkh"`
 	Sh       int    `json:"sh"`
@@ -25,13 +26,18 @@ type netRow struct {
 }
 
 type netExpect struct {
-	SegPrefix bool   `json:"segprefix"`
-	PkhID     bool   `json:"pkhid"`
-	ShID      bool   `json:"shid"`
-	HdPubOf   []int  `json:"hdpubof"`
-	OtherPkh  bool   `json:"otherpkh"`
-	OtherSh   bool   `json:"othersh"`
-	P2A       string `json:"p2a"`
+	SegPrefix     bool     `json:"segprefix"`
+	ImplSegPrefix bool     `json:"implsegprefix"`
+	ImplDecodable bool     `json:"impldecodable"`
+	HrpNets       []string `json:"hrpnets"`
+	ImplHrpNets   []string `json:"implhrpnets"`
+	B58Like       string   `json:"b58like"`
+	PkhID         bool     `json:"pkhid"`
+	ShID          bool     `json:"shid"`
+	HdPubOf       []int    `json:"hdpubof"`
+	OtherPkh      bool     `json:"otherpkh"`
+	OtherSh       bool     `json:"othersh"`
+	P2A           string   `json:"p2a"`
 }
 
 // world is what the binder knows about the networks: the specification's rows
@@ -42,8 +48,13 @@ type world struct {
 	params map[string]*chaincfg.Params
 	names  []string
 	// from the specification's table
-	regPrefix map[string]bool // registered hrp + "1"
+	regPrefix map[string]bool // registered hrp (canonical form) + "1"
 	regHrps   []string
+	// per prefix / per network facts the specification computed (net cases)
+	hrpNets       map[string][]string
+	implHrpNets   map[string][]string
+	implDecodable map[string]bool
+	b58like       map[string]string
 }
 
 func ints2bytes(v []int) []byte {
@@ -68,8 +79,19 @@ var registeredOnce = map[string]*chaincfg.Params{}
 // newWorld binds the rows: built-in networks to chaincfg's variables, the
 // specification's extra networks to parameter sets made from the row (and
 // registered with chaincfg.Register when the row says so).
-func newWorld(rows []netRow) (*world, error) {
-	w := &world{byName: map[string]*netRow{}, params: map[string]*chaincfg.Params{}, regPrefix: map[string]bool{}}
+func newWorld(rows []netRow, exps map[string]netExpect) (*world, error) {
+	w := &world{byName: map[string]*netRow{}, params: map[string]*chaincfg.Params{}, regPrefix: map[string]bool{},
+		hrpNets: map[string][]string{}, implHrpNets: map[string][]string{}, implDecodable: map[string]bool{}, b58like: map[string]string{}}
+	for _, r := range rows {
+		ex, ok := exps[r.Name]
+		if !ok {
+			return nil, fmt.Errorf("no net case for %s", r.Name)
+		}
+		w.hrpNets[r.Hrp] = ex.HrpNets
+		w.implHrpNets[r.Hrp] = ex.ImplHrpNets
+		w.implDecodable[r.Hrp] = ex.ImplDecodable
+		w.b58like[r.Name] = ex.B58Like
+	}
 	w.rows = rows
 	seen := map[string]bool{}
 	for i := range rows {
@@ -94,7 +116,7 @@ func newWorld(rows []netRow) (*world, error) {
 		p := chaincfg.RegressionNetParams // copy
 		p.Name = "verif-" + r.Name
 		p.Net = wire.BitcoinNet(0xc16c0000 + uint32(i))
-		p.Bech32HRPSegwit = r.Hrp
+		p.Bech32HRPSegwit = r.RegHrp
 		p.PubKeyHashAddrID = byte(r.Pkh)
 		p.ScriptHashAddrID = byte(r.Sh)
 		p.PrivateKeyID = byte(r.Wif)
@@ -143,14 +165,23 @@ func (w *world) checkNet(c *vrun.Ctx, rc rawCase) error {
 			bad(key, fmt.Sprintf("%s is %v, the specification's table says %v", key, got, want))
 		}
 	}
-	cmp("hrp", p.Bech32HRPSegwit, r.Hrp)
+	cmp("hrp", p.Bech32HRPSegwit, r.RegHrp)
 	cmp("pubkeyhash-id", int(p.PubKeyHashAddrID), r.Pkh)
 	cmp("scripthash-id", int(p.ScriptHashAddrID), r.Sh)
 	cmp("wif-id", int(p.PrivateKeyID), r.Wif)
 	cmp("hd-private-id", p.HDPrivateKeyID[:], ints2bytes(r.HdPriv))
 	cmp("hd-public-id", p.HDPublicKeyID[:], ints2bytes(r.HdPub))
-	cmp("registry-segwit-prefix", chaincfg.IsBech32SegwitPrefix(r.Hrp+"1"), ex.SegPrefix)
-	cmp("registry-segwit-prefix-upper", chaincfg.IsBech32SegwitPrefix(upper(r.Hrp)+"1"), ex.SegPrefix)
+	for _, q := range []string{r.Hrp + "1", upper(r.Hrp) + "1"} {
+		n++
+		got := chaincfg.IsBech32SegwitPrefix(q)
+		switch {
+		case got == ex.SegPrefix:
+		case got == ex.ImplSegPrefix:
+			c.Violation(keyHrpUpper, fmt.Sprintf("network %s registered with prefix %q: IsBech32SegwitPrefix(%q) = %t", r.Name, r.RegHrp, q, got), rc.replay())
+		default:
+			bad("registry-segwit-prefix", fmt.Sprintf("IsBech32SegwitPrefix(%q) = %t, the specification's table says %t", q, got, ex.SegPrefix))
+		}
+	}
 	cmp("registry-pubkeyhash-id", chaincfg.IsPubKeyHashAddrID(byte(r.Pkh)), ex.PkhID)
 	cmp("registry-scripthash-id", chaincfg.IsScriptHashAddrID(byte(r.Sh)), ex.ShID)
 	cmp("registry-unknown-pubkeyhash-id", chaincfg.IsPubKeyHashAddrID(200), ex.OtherPkh)
